@@ -67,16 +67,32 @@ func metricU(m map[string]string, name string, tags ...string) (uint64, bool) {
 }
 
 var (
-	c18Once     sync.Once
-	c18Counters []uint32
-	c18Hist     uint32
-	c18HistS    uint32
+	c18Once         sync.Once
+	c18Counters     []uint32
+	c18CounterNames []string
+	c18CounterTags  [][]string
+	c18Hist         uint32
+	c18HistS        uint32
 )
 
 func c18Setup() {
 	c18Once.Do(func() {
 		for i := 0; i < 4; i++ {
 			c18Counters = append(c18Counters, metrics.AddCounter(fmt.Sprintf("verif_c18_counter%d", i), nil))
+			c18CounterNames = append(c18CounterNames, fmt.Sprintf("verif_c18_counter%d", i))
+			c18CounterTags = append(c18CounterTags, nil)
+		}
+		// a family of counters that share a name and differ by tags only (as rend's own
+		// batch_connect{attempt=N} do), registered most specific first, the untagged
+		// one in the middle: each is a counter of its own
+		for _, tg := range []metrics.Tags{{"side": "l1", "attempt": "0"}, {"side": "l1"}, nil, {"side": "l2"}, {"attempt": "0"}, {"side": "l1", "attempt": "1"}} {
+			c18Counters = append(c18Counters, metrics.AddCounter("verif_c18_family", tg))
+			c18CounterNames = append(c18CounterNames, "verif_c18_family")
+			var tags []string
+			for k, v := range tg {
+				tags = append(tags, k+"*"+v)
+			}
+			c18CounterTags = append(c18CounterTags, tags)
 		}
 		c18Hist = metrics.AddHistogram("verif_c18_plain", false, nil)
 		c18HistS = metrics.AddHistogram("verif_c18_sampled", true, nil)
@@ -85,7 +101,7 @@ func c18Setup() {
 }
 
 func counterVal(m map[string]string, i int) uint64 {
-	v, _ := metricU(m, fmt.Sprintf("verif_c18_counter%d", i), "type*counter", "dataType*uint64")
+	v, _ := metricU(m, c18CounterNames[i], append([]string{"type*counter", "dataType*uint64"}, c18CounterTags[i]...)...)
 	return v
 }
 
@@ -135,7 +151,7 @@ func TestC18Counters(t *testing.T) {
 		after := readMetrics()
 		for i := range c18Counters {
 			if d := counterVal(after, i) - counterVal(before, i); d != want[i] {
-				t.Fatalf("C18 counter %d: reported increase %d, increments applied sum to %d (%d goroutines)", i, d, want[i], g)
+				t.Fatalf("C18 counter %d (%s %v): reported increase %d, increments applied sum to %d (%d goroutines)", i, c18CounterNames[i], c18CounterTags[i], d, want[i], g)
 			}
 		}
 		rec.Case(g >= 2, fmt.Sprintf("ctr|%v", plans), "counters")
